@@ -15,6 +15,7 @@ ENGINES = [
 ]
 
 HARNESSES = {
+    'C20': [dict(name='c20_repro', src=['C20_repro.cpp'], flavour='asan')],
     'C04': [dict(name='c04_costs', src=['C04_costs.cpp'], flavour='asan')],
     'C03': [dict(name='c03_interrupt', src=['C03_interrupt.cpp'], flavour='asan', ldflags=['-rdynamic'])],
     'C01': [dict(name='c01_geometric', src=['C01_geometric.cpp'], flavour='asan')],
@@ -42,6 +43,13 @@ DBE_NOTE = ('Trusted: the choice oracle (hook H1 + sampler-allocator seam) reall
             'g++/ASan build of libompl. Bounded: deviation bound D over the first N choice points, lattice samples, the listed worlds/configurations; silent beyond.')
 
 PROPERTY_META = {
+    'C20': dict(
+        deadline_quick=400, deadline_thorough=1700, engine='E2-HBFS', design_ref='5/C20',
+        technique='exhaustive enumeration of RNG-API histories, each executed in fresh processes; bounded differential enumeration of planner runs across address-layout and heap-content environments',
+        level_text='RNG API: every history up to depth 5/6 after setSeed(s), s in {1,2,12345}, executed twice in fresh processes and per generator against a solo process (i-th generator depends only on '
+                   'seed and i; reseeding reproduces a fresh RNG(localSeed)). Planners with the real generator: 33 single-threaded planners x continuous / tie-laden / SE(2) problems x seeds x budgets, '
+                   'each point in 5 processes differing in ASLR, heap offset and fresh-heap byte pattern; results must be identical.',
+        level_note='Trusted: fork/exec isolation, the observation hash (status, flags, solution path bits). The seed, problem and budget quantifiers are finite sets; layouts are 5 environments, not all.'),
     'C04': dict(
         deadline_quick=420, deadline_thorough=1700, engine='E1-DBE', design_ref='5/C04',
         technique='exhaustive enumeration of all short insertion histories into the real ProblemDefinition; deviation-bounded exploration of optimizing planners x objectives x thresholds with continued solves',
